@@ -18,13 +18,13 @@ META = {
             "call that is at least the mjMINAWAKE-th consecutive one with can-sleep(i) true; (5) mj_updateSleepInit: body_awake_ind / parent_awake_ind / "
             "dof_awake_ind are strictly increasing and contain exactly the bodies not asleep / the non-world bodies whose parent is not asleep / the dofs "
             "of awake moving bodies (parents precede children assumed for parent_awake_ind). "
-            "TIED to /repo by exact comparison with mj_sleepCycle, mj_wakeIsland, mj_sleep, mj_wake, mj_updateSleepInit on raw arrays (exhaustive small + random, "
+            "TIED to /repo by exact comparison with mj_sleepCycle, mj_wakeIsland, mj_sleep, mj_wake, mj_updateSleepInit on raw arrays (exhaustive small + random; the mj_updateSleepInit models add mocap bodies with chains of jointless descendants, jointless chains under the world and jointless bodies inside moving trees, so that body id, root id and parent id differ; "
             "error exits included), with mj_island's map_itree2tree/island_ntree/island_itreeadr, and with the mj_sleep call inside every step of the pipeline runs. "
             "PARTIAL (observed on the implementation, not proved): the wake *conditions* (mj_kinematics1 pose mismatch, treeCanSleep, mj_wakeCollision, mj_wakeEquality; "
             "mj_wakeTendon not exercised) and the frozen qpos/qvel: checked by an oracle over long histories of piles of free boxes with random qpos/qvel/xfrc/qfrc edits, "
-            "a sphere dropped on or shot at sleeping piles (about two thirds of the sphere-box geom pairs and some box-box pairs are explicit contact pairs with their own parameters), equality toggles and resets: cycle invariant after every forward and every step, sleeping trees keep bit-identical "
+            "a sphere dropped on or shot at sleeping piles (about two thirds of the sphere-box geom pairs and some box-box pairs are explicit contact pairs with their own parameters), equality toggles, resets, and (in a third of the scenes) a pile standing on a pad that is a jointless child of a mocap body which the history moves, some with every tree at policy never so that the twin comparison (now also xpos, xquat, geom_xpos, geom_xmat) runs on every step: cycle invariant after every forward and every step, sleeping trees keep bit-identical "
             "qpos and zero qvel, a cycle wakes as a whole or not at all, poked / touched / equality-linked sleeping trees are awake after the next mj_forward, "
-            "sleep transitions obey the island and mjMINAWAKE rules, and the sleep-enabled run equals the sleep-disabled run bit for bit while no tree is asleep. "
+            "a tree in contact with a mocap-rooted body is awake after mj_forward, sleep transitions obey the island and mjMINAWAKE rules, and the sleep-enabled run equals the sleep-disabled run bit for bit while no tree is asleep. "
             "NOT COVERED: flexes, tendon wake, mocap contact wake, RK4, the numerical content of treeCanSleep beyond the independent re-evaluation in the driver.",
     "note": "Trusted: Coq kernel; hand-written model Model/Sleep.v (treeCanSleep and the island partition are inputs of the model); correspondence harness (gcc, driver c18_sleep.c). "
             "All theorems closed under the global context.",
@@ -175,9 +175,9 @@ def run(ctx):
     for rep in range(100 if quick else 1500):
         add("U %d %d %d %d %d" % (rng.randrange(1, 10 ** 6), rng.choice(FEATS), rng.randrange(1, 12), rng.randrange(2), rng.randrange(10 ** 6)), "U", None)
     # ---- pipeline scenarios
-    nscen = 7 if quick else 80
+    nscen = 7 if quick else 60
     for rep in range(nscen):
-        variant = rng.choice([0, 0, 1, 2, 3, 8, 4, 5]) if rep >= 3 else [0, 4, 1][rep]
+        variant = rng.choice([0, 0, 1, 2, 3, 8, 4, 5, 32, 33, 96, 98, 104]) if rep >= 5 else [0, 4, 1, 96, 32][rep]
         add("P %d %d %d %d" % (rng.randrange(1, 10 ** 6), rng.randrange(2, 11), 1200 if quick else 3000, variant), "P", None)
     rc, out, err = ctx.run(exe, "\n".join(cmds) + "\n", timeout=900)
     lines = out.split("\n")
@@ -187,7 +187,7 @@ def run(ctx):
     # ---- parse
     coq_cases, coq_src = [], []
     pos = 0
-    stats = {"steps": 0, "sleep_events": 0, "wake_events": 0, "poke_wakes": 0, "contact_wakes": 0, "touch_wakes": 0, "twin_compared": 0, "multi_tree_cycles": 0, "resyncs": 0}
+    stats = {"steps": 0, "sleep_events": 0, "wake_events": 0, "poke_wakes": 0, "contact_wakes": 0, "touch_wakes": 0, "mocap_contacts": 0, "twin_compared": 0, "multi_tree_cycles": 0, "resyncs": 0}
     distinct = set()
 
     def emit(c, src):
@@ -394,6 +394,12 @@ def scenario(ctx, cmd, lines, pos, emit, viol, stats):
                     reported.add(tag); fail("%s between awake and sleeping trees %d %d after mj_forward" % (tag, a, b), k, "both awake", fw, "wake_" + tag, "oracle wake events")
                 if tag == "con" and a >= 0 and b >= 0 and a != b and (s[a] >= 0) != (s[b] >= 0):
                     stats["contact_wakes"] += 1
+                # a body rooted at a mocap body (the mocap body or a jointless descendant) is always awake:
+                # a tree in contact with it cannot be asleep after mj_forward
+                if tag == "con" and min(a, b) == -2 and max(a, b) >= 0:
+                    stats["mocap_contacts"] += 1
+                    if fw[max(a, b)] >= 0 and "mocap" not in reported:
+                        reported.add("mocap"); fail("contact between a mocap-rooted body and sleeping tree %d after mj_forward" % max(a, b), k, "tree awake", fw, "wake_mocap_contact", "oracle wake events")
         for x in f.get("touch", []):
             t = int(x)
             if (s[bullet] >= 0) != (s[t] >= 0):
@@ -426,5 +432,5 @@ def scenario(ctx, cmd, lines, pos, emit, viol, stats):
         if tw == -2:
             stats["resyncs"] += 1
         if tw == 0 and "twin" not in reported:
-            reported.add("twin"); fail("sleep-enabled and sleep-disabled runs differ while no tree is asleep", k, "bit-identical qpos qvel qacc time ncon nefc qfrc_constraint", "different", "twin", "oracle sleep on/off")
+            reported.add("twin"); fail("sleep-enabled and sleep-disabled runs differ while no tree is asleep", k, "bit-identical qpos qvel qacc time ncon nefc qfrc_constraint xpos xquat geom_xpos geom_xmat", "different", "twin", "oracle sleep on/off")
     return pos
